@@ -47,6 +47,27 @@ PROPS["C19"] = dict(
                "above it is the shipped code; the race detector is not part of the check",
 )
 
+PROPS["C17"] = dict(
+    engine="primsim", level="exploration",
+    quick=dict(runs=96000, workers=16),
+    thorough=dict(budget_s=600, workers=16),
+    rule="one evaluation = one seeded schedule of 2-5 tasks registering/unregistering their own entries (plain and channel-backed, masks from a 3-bit "
+         "universe), notifying, querying Events and taking channel tokens on one waiter.Queue, with schedule points before each lock acquisition, between the "
+         "statements of every critical section, per entry of Notify's walk and inside the callbacks; non-trivial = at least one callback ran and at least 3 "
+         "context switches; distinct = distinct hash of the (task, schedule point) sequence plus notify results",
+    expected_probes=["lock_contended", "channel_entry_notified"],
+    real=["pkg/waiter/waiter.go", "pkg/ilist/list.go"],
+    stubs=PRIM_STUBS + ["sync.RWMutex blocking: a task about to acquire q.mu parks at a schedule point until a TryLock probe succeeds, then takes the real lock"],
+    assumptions=PRIM_ASSUME,
+    hang_is_violation=True,
+    level_text="seeded exploration of interleavings of the shipped wait queue with an interval oracle (must-call / may-call sets per Notify, exactly-once, "
+               "no callback after unregistration returned, channel token never lost) and a porcupine linearizability cross-check against a sequential "
+               "set-of-(entry,mask) model; evidence, not proof",
+    level_note="an entry is registered and unregistered only by its owning task (the API allows an entry in one queue at a time); histories are at most 60 "
+               "operations so porcupine never times out (a timeout would be counted as inconclusive, never as a violation)",
+    technique="deterministic simulation: seeded controlled scheduler over the real code, interval oracle plus porcupine linearizability check of the recorded history",
+)
+
 PENDING = "check not built yet (work in progress; will be claimed once its simulation exists)"
 NOT_APPLICABLE = {
     "C15": "pure functions of their input (header codecs, RFC 1071 checksum): no schedule, clock, fault, I/O or second party for a simulator to control; "
